@@ -101,7 +101,10 @@ def Runtime.new {T V E : Type} (main : T) : Runtime T V E :=
   { runQueue := [{ id := 0, isMain := true, st := main }], nextId := 1 }
 
 def getQ {V : Type} (chans : List (List V)) (c : Nat) : List V := chans.getD c []
-def setQ {V : Type} (chans : List (List V)) (c : Nat) (q : List V) : List (List V) := chans.set c q
+/-- replace queue `c`; an index that was never created is created on the way (the real code cannot
+    reach this case: a channel value always comes from `ConstructChannel`; the driver rejects it) -/
+def setQ {V : Type} (chans : List (List V)) (c : Nat) (q : List V) : List (List V) :=
+  if c < chans.length then chans.set c q else chans ++ List.replicate (c - chans.length) [] ++ [q]
 
 section
 variable {T V E : Type}
